@@ -250,7 +250,23 @@ where
         // Self-remove proposals never generate welcomes (only Add proposals do),
         // so we can safely ignore the welcome output here
         let (commit_message, _welcomes, _group_info) =
-            mls_group.commit_to_pending_proposals(&self.provider, &mls_signer)?;
+            match mls_group.commit_to_pending_proposals(&self.provider, &mls_signer) {
+                Ok(result) => result,
+                Err(_e) => {
+                    // The auto-commit cannot be created right now (e.g. this admin still has a
+                    // pending commit of its own, or has asked to leave itself). The proposal is
+                    // already in the MLS proposal queue, so report what actually happened -
+                    // it is pending - instead of failing half-way with the queue changed.
+                    tracing::debug!(
+                        target: "mdk_core::messages::process_proposal",
+                        "Auto-commit not possible, keeping self-remove proposal pending"
+                    );
+                    self.mark_processed(event, group_id, mls_group.epoch().as_u64())?;
+                    return Ok(MessageProcessingResult::PendingProposal {
+                        mls_group_id: group_id.clone(),
+                    });
+                }
+            };
 
         let serialized_commit_message = commit_message
             .tls_serialize_detached()
